@@ -406,3 +406,41 @@ def mon_c14_batching(case, ots):
             continue
         quiet = False
     return None
+
+def mon_c14_full_exact(case, ots):
+    """write-only histories (no reads, so no automatic frames): the unsent amount is known exactly, hence WriteBufferFull
+    must be returned exactly when frame size + unsent exceeds the CURRENT max_write_buffer_size (set_config included)"""
+    ops = case.ops[:len(ots)]
+    if any(o.split(':')[0] not in ('wt', 'wb', 'wpi', 'f', 'sb', 'cr', 'cw') for o in ops):
+        return None
+    unsent = 0
+    cur_max = case.max
+    for i, (op, ot) in enumerate(zip(ops, ots)):
+        k = op.split(':')[0]
+        if k == 'sb':
+            if ot.res == 'ok':
+                p = op.split(':')
+                cur_max = None if p[2] == 'inf' else int(p[2])
+            continue
+        if k in ('wt', 'wb', 'wpi'):
+            n = len(ws.unhx(op.split(':')[1]))
+            size = 2 + (0 if n < 126 else 2 if n < 65536 else 8) + (4 if case.role == 'c' else 0) + n
+            exp_full = cur_max is not None and unsent + size > cur_max
+            got_full = ot.res.startswith('err:full')
+            if ot.res.startswith('err:proto') or ot.res == 'err:already' or ot.res.startswith('panic'):
+                return None
+            if exp_full != got_full:
+                return ('full-rule: op %d %s: %d bytes unsent + %d byte frame, max_write_buffer_size now %s: expected %s, got %s'
+                        % (i, op[:20], unsent, size, cur_max, 'WriteBufferFull' if exp_full else 'acceptance', ot.res[:30]))
+            if not got_full:
+                unsent += size
+        for e in ot.events:
+            if e.startswith('W:'):
+                p = e.split(':')
+                if p[2] not in ('e', '-'):
+                    unsent -= len(p[2]) // 2
+                if p[2] == '-' or (p[2] == 'e' and p[3] != 'wb'):
+                    return None       # transport ended / hard error: stop judging
+        if ot.res.startswith('err:io') and not ot.res.startswith('err:io:wb'):
+            return None
+    return None
